@@ -1135,6 +1135,18 @@ def install(E):
         return NotImplemented
     reg(r'^<(?:std::sync::)?(?:RwLockReadGuard|RwLockWriteGuard|MutexGuard)<.*> as (?:std::ops::)?Deref(?:Mut)?>::deref(?:_mut)?$', h_guard_deref)
 
+    # ---- bitcoin::Amount as a u64 newtype ----------------------------------------------------
+    def h_amount(E, m, func, argv, guard, mem, dty, caller):
+        v = argv[0]
+        if m.group(1) == 'from_sat':
+            return v if isinstance(v, I) else NotImplemented
+        if isinstance(v, I):
+            return v
+        if isinstance(v, Adt) and v.base is not None:
+            return E.sym(v.base + '.sat', 'u64')
+        return NotImplemented
+    reg(r'Amount::(to_sat|from_sat)$', h_amount)
+
     # ---- mem ------------------------------------------------------------------------
     def h_mem(E, m, func, argv, guard, mem, dty, caller):
         name = m.group(1)
